@@ -58,6 +58,7 @@ T = [
  ("C02-backquote-comment-close", W("file","bash","i0","`a #c`\n", c=1)),
  ("C02-backquote-heredoc-close", W("file","bash","i0","`cat <<EOF\nx\nEOF`\n", c=1)),
  ("C02-select-header-comment", W("file","bash","i0","select i in 1 2 # c\ndo foo; done\n", c=1)),
+ ("C02-semi-far-continuation", W("file","bash","i0","{ a \\\n\\\n; }\n", c=1)),
  ("C02-single-loop-header-comment", W("file","bash","i0,sl","{\nfor i # c\ndo a; done\n}\n", c=1)),
 ]
 FIXED = ['C01-command-first-newline', 'C01-comment-backslash-newline', 'C01-dashhdoc-inner-tab', 'C01-dashhdoc-vt-ff', 'C01-heredoc-pipe-test-let', 'C01-minify-empty-block', 'C01-minify-last-case-op', 'C01-single-heredoc-buried', 'C01-single-missing-semicolon', 'C01-slice-offset-incdec', 'C01-stale-wrotesemi-keyword', 'C01-tabwriter-vt-ff', 'C01-zsh-minify-short-subscript', 'C01-zsh-modifier-tab', 'C01-zsh-special-param-subscript', 'C01-zsh-subshell-anon-func', 'C02-dashhdoc-reindent']
